@@ -2,7 +2,7 @@
    batch.go, iatBatch.go and validators.go, and the instances of the generic theorems. *)
 From Coq Require Import ZArith NArith List Bool Lia Permutation.
 Import ListNotations.
-From ACH Require Import TxCodes RevTable SegTable Segment SegmentFacts SegmentTable.
+From ACH Require Import TxCodes RevTable SegTable Segment SegmentFacts SegmentSuccess SegmentTable.
 Open Scope Z_scope.
 
 Definition ST : stables :=
@@ -83,3 +83,14 @@ Example ex_file_segments :
          [ mksb false 225 1 121042882 0 207 [mkentry 27 200 2%N 2%N; mkentry 56 7 3%N 3%N] ]
          [ mksb false 225 2 123456789 0 11 [mkentry 47 11 7%N 1%N] ] 0 218).
 Proof. vm_compute. reflexivity. Qed.
+
+(* SegmentFile succeeds whenever the numbers File.Create leaves on both outputs are ascending:
+   nothing else can make it fail on a valid input *)
+Lemma segment_succeeds_ok f :
+  validate ST f = None -> input_wf ST f = true -> numbers_ok ST f = true ->
+  exists cf df, segment ST f = SOk cf df.
+Proof. apply segment_succeeds, ST_ok. Qed.
+
+(* the side condition holds for the example and is exactly what the collision witness violates *)
+Example numbers_ok_examples : numbers_ok ST ex_file = true /\ numbers_ok ST collision_file = false.
+Proof. vm_compute. split; reflexivity. Qed.
